@@ -209,6 +209,8 @@ class Interp:
     def match(self, pat, subj, env) -> bool:
         if isinstance(pat, ast.MatchValue):
             v = self.expr(pat.value, env)
+            if isinstance(v, Opaque) and isinstance(subj, Opaque):
+                return v.text == subj.text
             if not (_concrete(v) and _concrete(subj)):
                 raise Undecided("minieval: match on an unknown value")
             return v == subj
@@ -411,9 +413,23 @@ class Interp:
         if isinstance(op, (ast.In, ast.NotIn)):
             if isinstance(r, dict):
                 r = list(r)
-            if not isinstance(r, (list, tuple, str)) or not _concrete(l) or not _concrete(r):
+            if not isinstance(r, (list, tuple, str)):
                 raise Undecided(f"minieval: membership `{norm(node)}` on an unknown value")
-            return (l in r) if isinstance(op, ast.In) else (l not in r)
+            if isinstance(r, str):
+                if not isinstance(l, str):
+                    raise Undecided(f"minieval: membership `{norm(node)}` on an unknown value")
+                found = l in r
+            else:
+                # symbolic constants (enum members, `np.uint8`) are compared by their text
+                def same(a, b):
+                    if isinstance(a, Opaque) or isinstance(b, Opaque):
+                        return isinstance(a, Opaque) and isinstance(b, Opaque) and a.text == b.text
+                    if not (_concrete(a) and _concrete(b)):
+                        raise Undecided(f"minieval: membership `{norm(node)}` on an unknown value")
+                    return a == b
+
+                found = any(same(l, x) for x in r)
+            return found if isinstance(op, ast.In) else not found
         if not (_concrete(l) and _concrete(r)):
             if isinstance(op, (ast.Eq, ast.NotEq)) and isinstance(l, Opaque) and isinstance(r, Opaque):
                 return (l.text == r.text) if isinstance(op, ast.Eq) else (l.text != r.text)
